@@ -41,3 +41,27 @@ package soy
 //@ func (*Bundle).SetRecompilationCallback
 //@   props C09
 //@   modifies b.recompilationCallback
+
+// C07 / C01 / C13: a registry is handed out only after every file was parsed
+// and added, and the data-reference check, the globals pass and the message
+// pass ran on it - in that order, each failure ending the compilation.
+//@ func (*Bundle).Compile
+//@   props C07 C01
+//@   nosafety
+//@   noterm
+//@   modifies *
+//@   ghost checked bool = false
+//@   ghost checkErr error = nil
+//@   ghost globalsSet bool = false
+//@   ghost globalsErr error = nil
+//@   ghost msgsDone bool = false
+//@   at call parsepasses.CheckDataRefs#0 after set checked = true
+//@   at call parsepasses.CheckDataRefs#0 after set checkErr = res
+//@   at call parsepasses.SetGlobals#0 assert[references-checked-before-globals;C07] checked && checkErr == nil
+//@   at call parsepasses.SetGlobals#0 assert[bundle-globals-are-the-ones-set;C01] arg1 == b.globals
+//@   at call parsepasses.SetGlobals#0 after set globalsSet = true
+//@   at call parsepasses.SetGlobals#0 after set globalsErr = res
+//@   at call parsepasses.ProcessMessages#0 assert[messages-after-successful-passes;C07] checked && checkErr == nil && globalsSet && globalsErr == nil
+//@   at call parsepasses.ProcessMessages#0 after set msgsDone = true
+//@   ensures[registry-only-after-all-passes;C07,C01] result1 == nil ==> result0 != nil && checked && checkErr == nil && globalsSet && globalsErr == nil && msgsDone
+//@   ensures[failure-yields-no-registry;C07] result1 != nil ==> result0 == nil
